@@ -20,7 +20,7 @@ func runC11(c *Ctx) {
 	root := NewRng(c.Seed).Fork(11)
 	parallel(nWS, 14, func(i int) {
 		r := root.Fork(uint64(i))
-		sw := GenScopeWS(r, ScopeCfg{JoinPct: -1, GluePct: -1})
+		sw := GenScopeWS(r, ScopeCfg{JoinPct: -1, GluePct: -1, Zoo: r.Fork(0x7a6f6f).Chance(1, 4)})
 		c.Eval(1)
 		checkC11WS(c, sw, fmt.Sprintf("c11w%d", i), r.Fork(99))
 		if i < 1 {
